@@ -198,10 +198,17 @@ func (c *crawlGen) asset(host, owner string, level int, maxRetry int, seencheck 
 	case 14: // two assets, one of which redirects to the other: the target must be fetched once
 		tp := "/lib/" + name + ".js"
 		p := "/old/" + name + ".js"
+		ref, loc := tp, tp
+		if c.Chance(1, 2) {
+			// the page spells the query its own way (relative link, %20), the redirect names the canonical absolute URL
+			ref = tp + "?q=a%20b&r=1"
+			tp = tp + "?q=a+b&r=1"
+			loc = "http://" + host + tp
+		}
 		rt := c.res(host, tp, owner, level, Must, OK("application/javascript", Lit("var l=1;")))
 		rt.Tags["once"] = "1"
-		c.res(host, p, owner, level, Must, Redirect(301, tp))
-		return `<script src="` + tp + `"></script><script src="` + p + `"></script>`
+		c.res(host, p, owner, level, Must, Redirect(301, loc))
+		return `<script src="` + ref + `"></script><script src="` + p + `"></script>`
 	case 15: // asset that redirects out of scope, next to a sibling that redirects normally
 		p := "/gone/" + name + ".png"
 		c.res(host, p, owner, level, Must, Redirect(302, "http://archive.org/wayback/"+name+".png"))
